@@ -36,6 +36,10 @@ ExecutedNow(pre, post, c) ==
     UNION {RangeOf(b.txs) : b \in {b \in pre.ch[c].bat : \E ev \in AppliedEvents(pre, post, c) : ev.t = "Exec" /\ ev.tok = b.tok /\ ev.bn = b.n}}
 
 Expired(s, tr, tNow) == tr.ct + Cfg(s).out_timeout < tNow
+\* transfers of batches that disappear in this step without being executed (released back to the pool); a transfer
+\* released at the start of an End step can expire in the very same step
+ReleasedNow(pre, post, c) ==
+    UNION {RangeOf(b.txs) : b \in {b \in pre.ch[c].bat : ~\E o \in post.ch[c].bat : o.n = b.n /\ o.tok = b.tok}} \ ExecutedNow(pre, post, c)
 
 GhostNext(g, pre, a, res, post) ==
     [ref |-> [c \in Chains(post) |->
@@ -63,7 +67,7 @@ C04Checks(g, pre, a, res, post) ==
               LET tr == TrById(pre, c, id) IN
               ~ \/ tr \in ExecutedNow(pre, post, c)
                 \/ a.k = "Cancel" /\ res.out = "ok" /\ a.id = id /\ a.chain = c /\ tr \in pre.ch[c].pool
-                \/ a.k = "End" /\ tr \in pre.ch[c].pool /\ Expired(pre, tr, pre.t),
+                \/ a.k = "End" /\ (tr \in pre.ch[c].pool \/ tr \in ReleasedNow(pre, post, c)) /\ Expired(pre, tr, pre.t),
             "C04:Vanished", c)
        \* content of a live transfer never changes
   \cup Fail(\E id \in LiveIds(pre, c) \cap LiveIds(post, c) : TrById(pre, c, id) # TrById(post, c, id), "C04:Mutated", c)
@@ -115,7 +119,7 @@ C13Checks(pre, a, post) ==
         IN   Fail(~(byExec \/ older \/ timed), "C13:WithdrawnWithoutReason", c)
         \cup Fail(c = "minter" /\ ~byExec, "C13:MinterBatchWithdrawn", c)
              \* released transfers go back to the pool; executed ones go nowhere
-        \cup Fail(~byExec /\ ~(RangeOf(b.txs) \subseteq LiveTrs(post, c)), "C13:ReleasedLost", c)
+        \cup Fail(~byExec /\ \E tr \in RangeOf(b.txs) : tr \notin LiveTrs(post, c) /\ ~(a.k = "End" /\ Expired(pre, tr, pre.t)), "C13:ReleasedLost", c)
         \cup Fail(byExec /\ RangeOf(b.txs) \cap LiveTrs(post, c) # {}, "C13:ExecutedStillLive", c)
         : b \in GoneBatches(pre, post, c)}
       : c \in Chains(post)}
@@ -160,7 +164,7 @@ C12Expiry(g, pre, a, post) ==
      \cup Fail(\E tr \in pre.ch[c].pool : ~Expired(pre, tr, pre.t) /\ tr.id \notin LiveIds(post, c), "C12:RefundedEarly", c)
           \* hub-origin transfers that expire pay their sender back what was taken (several may expire at once)
      \cup UNION {
-            LET mine == {tr \in pre.ch[c].pool : Expired(pre, tr, pre.t) /\ tr.rc = "hub" /\ tr.s = acct /\ Has(g.taken[c], tr.id)} IN
+            LET mine == {tr \in pre.ch[c].pool \cup ReleasedNow(pre, post, c) : Expired(pre, tr, pre.t) /\ tr.rc = "hub" /\ tr.s = acct /\ Has(g.taken[c], tr.id)} IN
             IF mine = {} \/ acct \notin DOMAIN pre.bal THEN {}
             ELSE UNION {
                  LET trs  == {tr \in mine : DenomOfTr(pre, c, tr) = d}
@@ -168,13 +172,14 @@ C12Expiry(g, pre, a, post) ==
                      low  == FoldSet(LAMBDA tr, acc : acc + HubValue(pre, c, tr), 0, trs)
                      \* the same account may also be refunded on other chains in this block: compare per chain only
                      \* when the account has expiring transfers on this chain alone
-                     alone == /\ \A c2 \in Chains(pre) \ {c} : ~\E tr \in pre.ch[c2].pool : Expired(pre, tr, pre.t) /\ tr.s = acct
+                     alone == /\ \A c2 \in Chains(pre) \ {c} : ~\E tr \in LiveTrs(pre, c2) : Expired(pre, tr, pre.t) /\ tr.s = acct
+                              /\ \A tr \in pre.ch[c].pool \cup ReleasedNow(pre, post, c) : (Expired(pre, tr, pre.t) /\ tr.s = acct) => tr \in mine
                               /\ \A c2 \in Chains(pre) : ~\E ev \in AppliedEvents(pre, post, c2) : ev.t \in {"Deposit", "ToHub"} /\ ev.rcv = acct
                      got  == post.bal[acct][d] - pre.bal[acct][d]
                  IN IF trs = {} \/ ~alone THEN {}
                     ELSE Fail(got # want, "C12:ExpiryRefundExact", IF got = low /\ got < want THEN "dust" ELSE c)
                  : d \in DOMAIN pre.sup}
-            : acct \in {tr.s : tr \in pre.ch[c].pool}}
+            : acct \in {tr.s : tr \in LiveTrs(pre, c)}}
          : c \in Chains(pre)}
 
 \* ---------------------------------------------------------------- C11  amounts are exact (withdrawal side)
@@ -203,7 +208,7 @@ C11Deposit(pre, a, post) ==
                                    (LET tok == TokByExt(Cfg(pre), p[1], p[2].tok)
                                     IN IF toHub(p) /\ p[2].rcv = acct /\ Found(tok) /\ tok.denom = d THEN ConvDec(tok.dec, 18, p[2].amt) ELSE 0), 0, evs)
              \* accounts that are refunded by an expiry in the same block are judged by C12
-             refunded(acct) == \E c \in Chains(pre) : \E tr \in pre.ch[c].pool : tr.s = acct /\ Expired(pre, tr, pre.t)
+             refunded(acct) == \E c \in Chains(pre) : \E tr \in LiveTrs(pre, c) : tr.s = acct /\ Expired(pre, tr, pre.t)
          IN UNION {UNION {
                 Fail(~refunded(acct) /\ acct \notin {"tmp", "mod"} /\ post.bal[acct][d] - pre.bal[acct][d] # credit(acct, d), "C11:DepositCredit", acct)
               : d \in DOMAIN pre.sup} : acct \in DOMAIN pre.bal}
@@ -339,10 +344,61 @@ C16Confirm(pre, a, res, post) ==
          \cup Fail(\E c2 \in Chains(post) \ {c} : post.ch[c2].sigs # pre.ch[c2].sigs, "C16:OtherChainTouched", c)
          \cup Fail(\E gsig \in pre.ch[c].sigs : \E w \in DOMAIN gsig.by : ~Has(SigsOf(post, c, gsig.tx), w) \/ SigsOf(post, c, gsig.tx)[w] # gsig.by[w], "C16:Overwritten", c)
 
+\* ---------------------------------------------------------------- C19  fees and commissions stay within what was collected
+\* Evaluated on an End step that applies exactly one batch execution (so the Minter-side transfers the step creates
+\* can be attributed to it).
+ExecsApplied(pre, post) ==
+    UNION {{<<c, ev>> : ev \in {ev \in AppliedEvents(pre, post, c) : ev.t = "Exec" /\ \E b \in pre.ch[c].bat : b.tok = ev.tok /\ b.n = ev.bn}} : c \in Chains(pre)}
+SumOf(S, F(_)) == FoldSet(LAMBDA x, acc : acc + F(x), 0, S)
+C19Checks(pre, a, post) ==
+    IF a.k # "End" \/ Cardinality(ExecsApplied(pre, post)) # 1 \/ "minter" \notin Chains(pre) THEN {}
+    ELSE LET p    == CHOOSE p \in ExecsApplied(pre, post) : TRUE
+             c    == p[1]
+             ev   == p[2]
+             b    == CHOOSE b \in pre.ch[c].bat : b.tok = ev.tok /\ b.n = ev.bn
+             tok  == TokByExt(Cfg(pre), c, b.tok)
+             mtok == TokByDenom(Cfg(pre), "minter", tok.denom)
+             totF == ConvDec(tok.dec, 18, SumOver(b.txs, LAMBDA tr : tr.f))
+             totC == ConvDec(tok.dec, 18, SumOver(b.txs, LAMBDA tr : tr.c))
+             \* Minter-side transfers created in this step for this denom (no other source of "#fee"/"#commission" in an End step)
+             newm == {tr \in post.ch["minter"].pool \ pre.ch["minter"].pool : tr.tok = mtok.ext}
+             hv(tr) == ConvDec(mtok.dec, 18, tr.a)
+             fees  == {tr \in newm : tr.x = "#fee"}
+             comms == {tr \in newm : tr.x = "#commission"}
+             payees == BondedWithKey(post, "minter")
+             P == PowerSum(post, payees)
+         IN IF ~Found(mtok) THEN {}
+            ELSE Fail(SumOf(fees, hv) > totF, "C19:FeesWithinCollected", c)
+            \cup Fail(SumOf(comms, hv) > totC, "C19:CommissionWithinCollected", c)
+                 \* every user's refund is at most the fee that user paid
+            \cup Fail(\E r \in {tr.ra : tr \in RangeOf(b.txs)} :
+                        r # ev.fpr /\ SumOf({tr \in fees : tr.d = r}, hv) > ConvDec(tok.dec, 18, SumOver(b.txs, LAMBDA tr : IF tr.ra = r THEN tr.f ELSE 0)),
+                      "C19:RefundAboveFeePaid", c)
+                 \* nobody but the fee payer and the refund addresses of the batch is paid from the fees
+            \cup Fail(\E tr \in fees : tr.d # ev.fpr /\ tr.d \notin {t2.ra : t2 \in RangeOf(b.txs)}, "C19:FeeToStranger", c)
+                 \* commission: one payout per signer, within one unit of proportional
+            \cup Fail(\E tr \in comms : ~\E v \in payees : post.ch["minter"].ve[v] = tr.d, "C19:CommissionToStranger", c)
+            \cup Fail(P > 0 /\ \E v \in payees :
+                        LET mine == SumOf({tr \in comms : tr.d = post.ch["minter"].ve[v]}, hv)
+                        IN mine * P > totC * post.stk[v].p \/ (mine + 1) * P < totC * post.stk[v].p,
+                      "C19:CommissionProportional", c)
+                 \* the fee record reports the fee actually kept, between zero and the fee paid, in external units
+            \cup UNION {
+                 IF PseudoHash(tr.x) \/ ~Has(post.fr, tr.x) THEN Fail(~PseudoHash(tr.x), "C19:FeeRecordMissing", c)
+                 ELSE LET rec == post.fr[tr.x]
+                          mineRefund == SumOf({f \in fees : f.d = tr.ra /\ tr.ra # ev.fpr}, hv)
+                          single == Cardinality({t2 \in RangeOf(b.txs) : t2.ra = tr.ra}) = 1
+                      IN   Fail(rec[2] < 0 \/ rec[2] > tr.f, "C19:FeeRecordRange", c)
+                      \cup Fail(rec[1] # tr.c, "C19:FeeRecordCommission", c)
+                      \cup Fail(single /\ tr.rc = "minter" /\ rec[2] # tr.f - ConvDec(18, tok.dec, mineRefund), "C19:FeeRecordExact",
+                                IF tok.dec # 18 /\ rec[2] = tr.f - mineRefund THEN "unit-mix" ELSE c)
+                 : tr \in RangeOf(b.txs)}
+
 \* ---------------------------------------------------------------- known findings
 \* A deviation switch that stands for a recorded (not repaired) finding excuses exactly the check detail that
 \* describes it; every other failure of the same property is still a violation.
 Excused(f) ==
+    \/ "FeeRecordUnitMix" \in Dev /\ f[1] \in {"C19:FeeRecordExact", "C19:FeeRecordRange"}
     \/ "ConfirmZeroAddress" \in Dev /\ f = <<"C16:ConfirmRule", "zero-address">>
     \/ "RefundTruncatedDust" \in Dev /\ f \in {<<"C12:RefundExact", "dust">>, <<"C12:ExpiryRefundExact", "dust">>, <<"C12:ExpiredKept", "zero-dust">>}
 
@@ -354,6 +410,6 @@ StepChecks(g, pre, a, res, post) ==
   \cup C11Send(pre, a, res, post) \cup C11Others(pre, a, res, post) \cup C11Deposit(pre, a, post)
   \cup C02Checks(pre, a, post) \cup C02Vote(pre, a, res, post) \cup C03Checks(pre, a, res, post) \cup C05Checks(a, res)
   \cup C09Checks(pre, a, post) \cup C17Inv(post) \cup C17Register(pre, a, res, post) \cup C17Frozen(pre, a, res, post)
-  \cup C16Confirm(pre, a, res, post)
+  \cup C16Confirm(pre, a, res, post) \cup C19Checks(pre, a, post)
 
 =============================================================================
